@@ -969,9 +969,19 @@ pub(crate) fn gcd(n1: Number, n2: Number, arena: &mut Arena) -> Result<Number, M
         (Number::Fixnum(n1), Number::Integer(n2)) | (Number::Integer(n2), Number::Fixnum(n1)) => {
             let n1 = Integer::from(n1.get_num());
             let n2_clone: Integer = (*n2).clone();
+
+            // the bignum gcd is undefined (and panics) between two zeros
+            if n1.is_zero() && n2_clone.is_zero() {
+                return Ok(Number::arena_from(0i64, arena));
+            }
+
             Ok(Number::arena_from(Integer::from(n2_clone.gcd(&n1)), arena))
         }
         (Number::Integer(n1), Number::Integer(n2)) => {
+            if n1.is_zero() && n2.is_zero() {
+                return Ok(Number::arena_from(0i64, arena));
+            }
+
             let value: Integer = (&*n1).gcd(&*n2).into();
             Ok(Number::arena_from(value, arena))
         }
